@@ -56,7 +56,7 @@ def run(ck):
     ck.cov["impl_runs"] = nrun
     ck.samples = [l[:160] for _, _, l in cases[:: max(1, len(cases) // 8)]][:8]
     nc.report(ck, fails, corr, what="setter")
-    return ck.finish(trusted=["coqc 8.16.1 kernel", "extraction + driver.ml", "h_set.cpp harness", "translator"], extra_cov={"params_sha": info})
+    return ck.finish(trusted=["coqc 8.16.1 kernel", "extraction + driver.ml", "h_set.cpp harness", "source readers: tools/dump_params (tables), cxxloop2coq.py (setters), cxxcreators2coq.py (entry points of poly)"], extra_cov={"params_sha": info})
 
 def replay(ck, rec):
     model, _ = vf.build_model()
